@@ -1,7 +1,7 @@
 (** * C01T: the C01 statements (as named propositions, so that the pin file and
     the property file share them verbatim) and their proofs from [C01P]. *)
 From Coq Require Import Reals Lia.
-From QV Require Import Spec ScalarR BitsP OpP C01P.
+From QV Require Import Spec ScalarR BitsP OpP C01P BitsIterP C01M.
 Open Scope R_scope.
 
 Notation MF := (multi_fn Rops).
@@ -155,4 +155,64 @@ Proof.
   repeat split; try (apply H1; reflexivity); try (apply H2; reflexivity);
     try apply Hrz; try apply H3.
   all: try (apply (proj1 (Hrz _))); try (apply (proj2 (Hrz _))); try (apply (proj1 (H3 _ _ _))); try (apply (proj2 (H3 _ _ _))).
+Qed.
+
+(** a several-bit mask given to a one-qubit gate means that gate on each selected qubit *)
+Definition C01_multi_bit_stmt : Prop :=
+  forall (bs : list N), NoDup bs ->
+    forall (psi : vecR) (idx : N),
+      multi_fn Rops (op_x (mask_of bs)) psi idx = lift_all (doc_x Rops) bs psi idx /\
+      multi_fn Rops (op_z (mask_of bs)) psi idx = lift_all (doc_z Rops) bs psi idx /\
+      multi_fn Rops (op_s (mask_of bs)) psi idx = lift_all (doc_s Rops) bs psi idx /\
+      multi_fn Rops (op_t (mask_of bs)) psi idx = lift_all (doc_t Rops) bs psi idx.
+
+Lemma C01_multi_bit_proof : C01_multi_bit_stmt.
+Proof.
+  intros bs Hnd psi idx. repeat split.
+  - unfold op_x. rewrite multi_fn_one. apply (multi_bit AX (doc_x Rops) k_x comp_x empty_x bs Hnd).
+  - unfold op_z. rewrite multi_fn_one. apply (multi_bit AZ (doc_z Rops) k_z comp_z empty_z bs Hnd).
+  - unfold op_s. rewrite multi_fn_one.
+    apply (multi_bit (fun m => AS m false) (doc_s Rops) k_s comp_s empty_s bs Hnd).
+  - unfold op_t. rewrite multi_fn_one.
+    apply (multi_bit (fun m => AT m false) (doc_t Rops) k_t comp_t empty_t bs Hnd).
+Qed.
+
+Definition C01_multi_bit_y_stmt : Prop :=
+  forall (bs : list N), NoDup bs ->
+    forall (psi : vecR) (idx : N),
+      multi_fn Rops (op_y (mask_of bs)) psi idx = lift_all (doc_y Rops) bs psi idx.
+
+Lemma C01_multi_bit_y_proof : C01_multi_bit_y_stmt.
+Proof.
+  intros bs Hnd psi idx. unfold op_y. rewrite multi_fn_one.
+  apply (multi_bit AY (doc_y Rops) k_y comp_y empty_y bs Hnd).
+Qed.
+
+Definition C01_multi_bit_h_stmt : Prop :=
+  forall (m : N) (q : multi R), (m < 2 ^ 64)%N -> op_h m = Some q ->
+    exists bs : list N, NoDup bs /\ (forall k, In k bs <-> N.testbit m k = true) /\
+      forall (psi : vecR) (idx : N), multi_fn Rops q psi idx = lift_all (doc_h Rops) bs psi idx.
+
+Lemma C01_multi_bit_h_proof : C01_multi_bit_h_stmt.
+Proof.
+  intros m q Hm. unfold op_h. destruct (popcount m) as [|[p|p|]] eqn:Hp.
+  - intro H. injection H as <-. apply popcount_eq0 in Hp. subst m. exists []. split; [constructor|]. split.
+    + intro k. rewrite N.bits_0. cbn [In]. split; [tauto|discriminate].
+    + reflexivity.
+  - rewrite walk_bits_spec. intro H. injection H as <-.
+    destruct (scan64_positions m) as [ps [E [Hnd Hin]]]. rewrite E. exists (rev ps). split; [|split].
+    + apply NoDup_rev. exact Hnd.
+    + intro k. rewrite <- in_rev, Hin. split; [tauto|]. intro Hk. split; [apply (testbit_high m k Hm Hk)|exact Hk].
+    + apply h_pairs_spec. exact Hnd.
+  - rewrite walk_bits_spec. intro H. injection H as <-.
+    destruct (scan64_positions m) as [ps [E [Hnd Hin]]]. rewrite E. exists (rev ps). split; [|split].
+    + apply NoDup_rev. exact Hnd.
+    + intro k. rewrite <- in_rev, Hin. split; [tauto|]. intro Hk. split; [apply (testbit_high m k Hm Hk)|exact Hk].
+    + apply h_pairs_spec. exact Hnd.
+  - intro H. injection H as <-. destruct (popcount_eq1 m Hp) as [b ->]. exists [b]. split; [|split].
+    + constructor; [intros []|constructor].
+    + intro k. rewrite pow2_bits. cbn [In]. split.
+      * intros [<-|[]]. apply N.eqb_refl.
+      * intro E. apply N.eqb_eq in E. left. exact E.
+    + intros psi idx. rewrite multi_fn_one. apply k_h.
 Qed.
